@@ -8,7 +8,7 @@
    The full statement (every raising step leaves vis unchanged) is false of the faithful model and of
    hl7apy: C12_atomic_refuted_* (F9: replacement by an element of the other validation level,
    refused datatype change, value assignment through a lazily created element, partly admissible
-   value).  C12_atomic_partial_* prove it for the rejection causes
+   value, a datatype object of another base datatype assigned as value).  C12_atomic_partial_* prove it for the rejection causes
    where it holds: a refused add (wrong class or name, foreign child, cardinality, level, version),
    an assignment whose child name does not resolve or whose value the parser refuses, an assignment
    refused at admission time when it would append, an element of another name, a deletion of an
@@ -133,6 +133,14 @@ Theorem C12_atomic_refuted_partial_value :
   = (unbs "PID|1", 6, unbs "PID|2").
 Proof. vm_compute. reflexivity. Qed.
 Print Assumptions C12_atomic_refuted_partial_value.
+
+(* F9e  field.value = NM(2) on the populated SI field PID_1: ChildNotValid, and the old value is gone
+   (children[0] is removed by replace_child before the new component is admitted) *)
+Theorem C12_atomic_refuted_value_datatype_object :
+  before_after [ONewSeg TOLERANT "PID"; OSetAttr 0 (nm "pid_1") (HText "1"); OGrabList 0 0] (OSetValueDt 1 "NM" "2")
+  = (unbs "PID|1", 5, unbs "PID|").
+Proof. vm_compute. reflexivity. Qed.
+Print Assumptions C12_atomic_refuted_value_datatype_object.
 
 (* F20 (fixed by b690ba1): seg.pid_3 = ST('z') on a CX field is still refused (ChildNotValid) but the
    element it was building is detached: the target is unchanged *)
